@@ -83,6 +83,8 @@ Expected(d) == [i \in 1..Len(Compound(prog.first, prog.rest, DocSeq[d], TheCtx))
 DefaultIsDefault == assign = DefaultTok => Text(assign) = Text(DefaultTok)
 
 ASSUME PrintT(ToJson([docs |-> [d \in 1..Len(DocSeq) |-> [doc |-> DocSeq[d], nodes |-> <<>>]], ctx |-> TheCtx]))
-Export == done => PrintT(ToJson([assign |-> assign, text |-> Text(assign), dtext |-> Text(DefaultTok),
+\* the same program in the dotted shorthand (names, wildcard and keys selector after a dot)
+DotText(t) == RenderCompound(prog.first, prog.rest, [St(t) EXCEPT !.dot = TRUE])
+Export == done => PrintT(ToJson([assign |-> assign, text |-> Text(assign), dtext |-> Text(DefaultTok), dot |-> DotText(assign),
                                   res |-> [d \in 1..Len(DocSeq) |-> Expected(d)]]))
 =============================================================================
